@@ -1415,9 +1415,27 @@ def r19(k: Kit) -> None:
     dec = [(n, c) for n, c in k.calls_named(fi, 'validate_host_based_user')]
     rep.floor('C05.R19', 'host key lookups', len(look), 1)
     rep.floor('C05.R19', 'application decisions', len(dec), 1)
-    verified = {dotted(c.args[0]) for c in look if c.args}
+    g19 = k.cfg(fi)
+    rd19 = k.rd(fi)
+
+    def root(nid, e):
+        # follow plain local copies (x = y, one definition) to their source
+        seen = set()
+        while isinstance(e, ast.Name) and e.id not in seen:
+            seen.add(e.id)
+            ds = [d for d in rd19.defs_of(nid, e.id) if d != PARAM]
+            if len(ds) != 1 or len(rd19.defs_of(nid, e.id)) != 1:
+                break
+            v = rd19.def_value(ds[0], e.id)
+            if not isinstance(v, ast.Name):
+                break
+            nid, e = ds[0], v
+        return dotted(e)
+    verified = {root(n_.id, c_.args[0])
+                for n_, c_ in k.calls_named(fi, '_validate_host_key', 'self')
+                if c_.args}
     for n, c in dec:
-        h = dotted(c.args[1]) if len(c.args) > 1 else None
+        h = root(n.id, c.args[1]) if len(c.args) > 1 else None
         rep.check(h is not None and h in verified, 'C05.R19',
                   key(fi, 'decision is about the verified host'),
                   f'validate_host_based_user(..., {h}, ...) and '
